@@ -11,7 +11,7 @@ from pipeline import (ImplFns, check_simulation, compare_value_arrays, explicit_
 from dsl import params_impl
 
 FORCES = [["mixed"], ["mixed", "cont2", "stacked"], ["filter"], ["cont2", "flatc", "lower"], ["stoch"], ["f1"], ["constraint"], None, ["mixed", "stoch"], ["aux"], ["nofilter"],
-          ["f1", "constraint"], ["stoch3", "eqsize"], ["stoch3"], ["log"], ["log", "mixed"], ["filter", "flatd"], ["flatc", "lower"], ["mixed", "flatd", "lower"], ["flatc", "flatd", "lower", "filter"]]
+          ["f1", "constraint"], ["stoch3", "eqsize"], ["stoch3"], ["log"], ["log", "mixed"], ["filter", "flatd"], ["flatc", "lower"], ["mixed", "flatd", "lower"], ["flatc", "flatd", "lower", "filter"], ["filter", "cofilter"], ["filter", "cofilter", "mixed"], ["divguard"], ["divguard", "filter"]]
 AGENTS = [1, 6, 7, 11]
 
 
